@@ -40,8 +40,8 @@ Variable inferral_strategies : list Z.
 Variable initial_strategies : list Z.
 Variable expansion_strats : list (list Z).
 
-Notation Inv := (Inv T False).
-Notation leq := (leq T False).
+Notation Inv := (Inv T False Gtriv).
+Notation leq := (leq T False Gtriv).
 Notation lbl := (label_of Z.eqb (fun c : Z => c)).
 Notation step_with := (step_with T mode F expand_verified inferral_strategies initial_strategies expansion_strats).
 Notation step := (step T mode F expand_verified inferral_strategies initial_strategies expansion_strats).
@@ -57,16 +57,13 @@ Notation qnext := (Queue.Model.next inferral_strategies initial_strategies expan
 Notation q_apply := (q_apply inferral_strategies initial_strategies).
 
 (* the contract-free invariant of C04 needs no table contracts *)
-Lemma no_pe : False -> forall sid c e,
-  entry_of T sid c = Some e -> pe_of T sid = false -> forall k, In k (e_children e) -> oracle T k = false.
+Lemma no_pe : False -> Contracts.pe_contract T [].
 Proof. intros []. Qed.
-Lemma no_sym : False -> forall sid c r c0 rest,
-  In sid (t_sym T) -> In r (rules_from_strategy T sid c) -> rule_children T r = Some (c0 :: rest) ->
-  oracle T c0 = oracle T c.
+Lemma no_sym : False -> Contracts.sym_contract T.
 Proof. intros []. Qed.
 
 Lemma Inv_norm c : Inv c -> Inv (norm c).
-Proof. intros (W & E & _). unfold Inv.Inv; simpl. split; [exact W|split; [exact E|constructor]]. Qed.
+Proof. intros (W & E & _). unfold Inv.Inv; simpl. split; [exact W|split; [exact E|split; [constructor|intros []]]]. Qed.
 
 Lemma last_ok_norm c last : last_ok c last -> last_ok (norm c) last.
 Proof. intros H l x E. exact (H l x E). Qed.
@@ -128,17 +125,17 @@ Proof.
         as [c1 l1] eqn:Ep.
       injection H as <- <- _. simpl.
       rewrite norm_idem in Ep.
-      destruct (packet_step_ok T mode False no_pe no_sym F false expand_verified _ _ _ _ _ In Hn Ep) as (L & Hl1).
-      split; [apply Inv_norm; apply (leq_inv _ _ _ _ L)|apply last_ok_norm; auto].
+      destruct (packet_step_ok0 T mode False [] no_pe no_sym F false expand_verified _ _ _ _ _ (fun f : False => match f with end) In Hn Ep) as (L & Hl1).
+      split; [apply Inv_norm; apply (leq_inv _ _ _ _ _ L)|apply last_ok_norm; auto].
     + injection H as <- <- _. simpl. auto.
     + injection H as <- <- _. simpl.
-      pose proof (fail_ok T False 9 _ In) as L.
-      split; [apply (leq_inv _ _ _ _ L)|].
-      intros l x E. apply (RL_leq T False _ _ x l In L). apply (Hn l x E).
+      pose proof (fail_ok T False Gtriv 9 _ In) as L.
+      split; [apply (leq_inv _ _ _ _ _ L)|].
+      intros l x E. apply (RL_leq T False Gtriv _ _ x l In L). apply (Hn l x E).
     + injection H as <- <- _. simpl.
-      pose proof (fail_ok T False 9 _ In) as L.
-      split; [apply (leq_inv _ _ _ _ L)|].
-      intros l x E. apply (RL_leq T False _ _ x l In L). apply (Hn l x E).
+      pose proof (fail_ok T False Gtriv 9 _ In) as L.
+      split; [apply (leq_inv _ _ _ _ _ L)|].
+      intros l x E. apply (RL_leq T False Gtriv _ _ x l In L). apply (Hn l x E).
 Qed.
 
 Lemma step_inv s s' e : Inv (core s) -> step s = (s', e) -> Inv (core s').
@@ -159,7 +156,7 @@ Qed.
 Lemma init_sstate_inv ans start : Inv (core (fst (init_sstate ans start))).
 Proof.
   unfold Step.init_sstate. simpl. apply Inv_norm.
-  apply (searcher_init_ok T mode False no_pe no_sym).
+  apply (searcher_init_ok0 T mode False [] no_pe no_sym).
 Qed.
 
 (* ------------------------------------------------------ iterate composes *)
